@@ -209,8 +209,23 @@ def run(rep, facts, tier):
             if w['field'][0] != 'sources' or not w['how'].startswith('call:grow'):
                 continue
             n_reg += 1
-            checked = any((callee_of(t) or '').startswith('arcstr::arc_str::ArcStr::ptr_eq') for g in [f] + [fx.fns[c] for c in fx.callgraph().get(fn, ())
-                          if c in fx.fns and c.startswith(fn + '::{closure')] for _, t in g.calls())
+            # ... and what it is compared with is an entry of the registry (the table the identity lookup searches), not some other
+            # collection that merely holds some of the registered buffers (the pending inputs, say): the comparison sits in a body
+            # that ranges over (name, text) pairs - a closure handed one, or a loop of the registrar itself over such pairs
+            import re as _re
+            pair = _re.compile(r'\((arcstr::arc_str::)?ArcStr, (arcstr::arc_str::)?ArcStr\)')
+
+            def over_registry(g, is_closure):
+                ls = range(1, g.argc + 1) if is_closure else range(g.argc + 1, len(g.locals))
+                return any(pair.search(g.local_ty(k)) and (is_closure or 'Iter' in g.local_ty(k) or g.local_ty(k).lstrip().startswith('&')) for k in ls)
+            bodies = [(f, False)] + [(fx.fns[c], True) for c in fx.callgraph().get(fn, ()) if c in fx.fns and c.startswith(fn + '::{closure')]
+            has_cmp = [(g, cl) for g, cl in bodies if any((callee_of(t) or '').startswith('arcstr::arc_str::ArcStr::ptr_eq') for _, t in g.calls())]
+            checked = any(over_registry(g, cl) for g, cl in has_cmp)
+            if has_cmp and not checked:
+                rep.add('C17.R2', 'C17.R2:%s:uniqueness-tested-against-the-registry' % fn, False,
+                        '%s compares the new buffer by identity, but not with the entries of the source registry (no (name, text) pair is in reach of the '
+                        'comparison): a buffer registered earlier and no longer pending is registered a second time, and the identity lookup then names the older entry' % short(fn), fn, w['at'])
+                continue
             rep.add('C17.R2', 'C17.R2:%s:registered-buffer-is-unique' % fn, checked,
                     'a buffer that is registered already is recognised (ptr_eq against the registry) before the new entry is made' if checked else
                     '%s registers the buffer it is given without looking whether an entry has it already: the same Xstr submitted twice shares '
